@@ -133,8 +133,18 @@ def run(ctx):
         p = ctx.path("replay.ndjson")
         open(p, "w").write(json.dumps(case["vector"]) + "\n")
         todo = {case["family"]: p}
-    # part (c): lead adds call to negcommon here (restart header address rule, Negotiation.tla
-    # HdrAccept / C12_EstabStable; traces of the neg driver with header sequences across restarts)
+    # part (c): restart header address rule (Negotiation.tla HdrAccept / C12_EstabStable): traces of
+    # the neg driver (header scripts with matching / differing / absent addresses across restarts,
+    # both roles, c2s and s2s) validated by TLC.
+    partc = {"traces": 0, "rejected": 0}
+    if not ctx.replay:
+        import negcommon as nc
+        pools = nc.emit_pool(ctx)
+        trc, summc = nc.run_scenarios(ctx, pools["pool_quick.json"], n=1500 if ctx.tier == "quick" else 20000, faults=False, name="c12c-trace")
+        rejc, rc = nc.validate(ctx, trc)
+        nc.report_rejections(ctx, trc, rejc, what="negotiation trace (restart header rule, C12c) not a behaviour of Negotiation.tla")
+        partc = {"traces": summc["traces"], "rejected": len(rejc), "trace_states": rc.distinct}
+        ctx.log("part (c): %d negotiation traces validated, %d rejected" % (summc["traces"], len(rejc)))
 
     open_classes = {f.get("class"): f for f in ctx.open_findings() if f.get("class")}
     totals, per_class, samples, verdicts = {}, {}, [], {}
@@ -158,6 +168,7 @@ def run(ctx):
                            "expected": m["vector"].get("exp")})
     nself = selftest(ctx, files) if not ctx.replay else 0
     nvec = sum(t["vectors"] for t in totals.values())
+    ctx.notes.append("part (c) restart header rule: %s" % json.dumps(partc))
     ctx.write_evidence("model_checking", {
         "states": sum(r.distinct for r in mc.values()), "transitions": sum(r.generated for r in mc.values()),
         "states_by_check": {k: r.distinct for k, r in mc.items()},
